@@ -190,7 +190,7 @@ def run(ctx):
     run_grid(ctx)
     run_settings_ops(ctx)
     # conversion half: mode B on generated models (stage "resolve": parameter value -> per-step fraction -> people) + documented-conversion oracle
-    engine_corr.run_stream(ctx, PROPERTY, ctx.n(60, 2000), focus=lambda r: {"functions": r.random() < 0.5, **({"npops": r.choice([2, 3]), "aggregation": True} if r.random() < 0.35 else {})})
+    engine_corr.run_stream(ctx, PROPERTY, ctx.n(60, 2000), focus=lambda r: {"functions": r.random() < 0.5, **({"npops": r.choice([2, 3]), "aggregation": True, "agg_weight_par": 0.4} if r.random() < 0.35 else {})})
     # closed loop: whole trajectories from the specification alone (no value of the implementation fed in)
     closed_corr.closed_selfcheck(ctx, n=ctx.n(2, 6))
     closed_corr.run_closed(ctx, PROPERTY, ctx.n(60, 2000))
